@@ -50,6 +50,8 @@ type Engine struct {
 	baseFuncs     []string
 	funcAlias     map[*ssa.Global]*ssa.Function
 	known         *KnownFile
+	guards        map[string]*GuardDecl // "pkgpath.Type" -> guard
+	libState      map[string]map[string]bool // package path -> heap names that are library-private state
 	prop          string
 	mu            sync.Mutex
 }
@@ -72,12 +74,48 @@ func newEngine(repo, specDir string, patterns []string) (*Engine, error) {
 		preludeFuncs: map[string]*preludeFunc{}, preludeSorts: map[string]bool{}, ghostElemType: map[string]types.Type{},
 		nativeExterns: map[string]func(fr *frame, args []SV, cur *State, rtyp types.Type) SV{},
 		ghostSafeList: []string{"types.Subspace.Get", "*types.Subspace.Get", "types.Subspace.Has"}}
+	// sync.Mutex: the mutex word is 0 (unlocked) or 1 (locked). Lock on a held mutex deadlocks and Unlock of a
+	// free one is a fatal error: both are obligations (also in the lenient regime: they are not recoverable panics).
+	for _, rw := range []string{"Mutex", "RWMutex"} {
+		rw := rw
+		e.nativeExterns["*sync."+rw+".Lock"] = func(fr *frame, args []SV, cur *State, rtyp types.Type) SV {
+			vc := fr.vc
+			loc := vc.locOf(args[0])
+			vc.oblige("safe", fmt.Sprintf("lock%d.free", vc.count("lock")), fr.g, eq(vc.loadLoc(cur, loc), "0"))
+			vc.storeLoc(cur, loc, "1")
+			vc.assumes["sync."+rw+" modelled as a 0/1 word owned by the executing goroutine (sequential lock discipline; no scheduler model)"] = true
+			return SV{t: "0", typ: rtyp}
+		}
+		e.nativeExterns["*sync."+rw+".Unlock"] = func(fr *frame, args []SV, cur *State, rtyp types.Type) SV {
+			vc := fr.vc
+			loc := vc.locOf(args[0])
+			vc.oblige("safe", fmt.Sprintf("unlock%d.held", vc.count("unlock")), fr.g, eq(vc.loadLoc(cur, loc), "1"))
+			vc.storeLoc(cur, loc, "0")
+			return SV{t: "0", typ: rtyp}
+		}
+	}
 	var err error
 	e.contracts, e.ghosts, e.files, err = loadContracts(repo, specDir)
 	if err != nil {
 		return nil, err
 	}
 	e.invariants = map[string]*Invariant{}
+	e.guards = map[string]*GuardDecl{}
+	e.libState = map[string]map[string]bool{}
+	for _, cf := range e.files {
+		for _, h := range cf.LibState {
+			if e.libState[cf.Pkg] == nil {
+				e.libState[cf.Pkg] = map[string]bool{}
+			}
+			e.libState[cf.Pkg][h] = true
+		}
+	}
+	for _, cf := range e.files {
+		for i := range cf.Guards {
+			g := &cf.Guards[i]
+			e.guards[g.Pkg+"."+g.Type] = g
+		}
+	}
 	for _, cf := range e.files {
 		for _, inv := range cf.Invariants {
 			e.invariants[inv.Name] = inv
